@@ -258,6 +258,8 @@ func (o *OAuth2) End(w http.ResponseWriter, r *http.Request) error {
 	// Fully log user in
 	authboss.PutSession(w, authboss.SessionKey, authboss.MakeOAuth2PID(provider, user.GetOAuth2UID()))
 	authboss.DelSession(w, authboss.SessionHalfAuthKey)
+	// An earlier user's second factor does not carry over to this login
+	authboss.DelSession(w, authboss.Session2FA)
 
 	// Create a query string from all the pieces we've received
 	// as passthru from the original request.
